@@ -148,7 +148,7 @@ class SymSource:
         self._violation(msg, ctx.get_model(), info)
         return False
 
-    def _random_witness(self, e, tries=48):
+    def _random_witness(self, e, tries=12):
         """The solver timed out on pc AND NOT e.  Try concrete instantiations of every declared
         variable (cheap: propagation only).  Can only refute; any witness is replayed like a model."""
         import random
